@@ -1036,13 +1036,22 @@ Note that type resolution may not succeed."""
         """Removes all aliases from typenode, returns first non-alias
         in the typenode alias chain.  Returns typenode argument if it
         is not an alias."""
-        while isinstance(typenode, ast.Alias):
-            if typenode.target.target_giname is not None:
-                typenode = self.lookup_giname(typenode.target.target_giname)
+        seen = set()
+        while isinstance(typenode, ast.Alias) and id(typenode) not in seen:
+            seen.add(id(typenode))
+            target = typenode.target
+            if not target.resolved and target.ctype:
+                # The target of an alias is only resolved after parsing,
+                # but constants look up their type while parsing: resolve
+                # a copy, so that a typedef of a typedef is followed too.
+                target = target.clone()
+                self._resolve_type_from_ctype(target)
+            if target.target_giname is not None:
+                typenode = self.lookup_giname(target.target_giname)
             else:
                 # This can happen when target_fundamental is "<array>"
                 try:
-                    typenode = ast.type_names[typenode.target.target_fundamental]
+                    typenode = ast.type_names[target.target_fundamental]
                 except KeyError:
                     break
         return typenode
